@@ -229,12 +229,25 @@ func (p *evmprof) Gen(w *e.World, r *e.RNG) e.Step {
 			amt = new(big.Int).Sub(new(big.Int).Lsh(big.NewInt(1), 256), big.NewInt(1)) // unlimited
 		}
 		pc.Amt = amt.String()
+		exact := pc.M == "decreaseAllowance" && r.Chance(0.35)
 		k := 1 + r.Intn(len(stakingMsgURLs))
 		perm := r.Perm(len(stakingMsgURLs))
 		for _, i := range perm[:k] {
 			pc.Methods = append(pc.Methods, stakingMsgURLs[i])
 		}
 		sort.Strings(pc.Methods)
+		if exact {
+			// take away exactly what is left of one existing limited grant
+			if to, ok := ew(w).resolveAddr(w, pc.To); ok {
+				for _, url := range stakingMsgURLs {
+					auth, _ := w.App().AuthzKeeper.GetAuthorization(w.Ctx(), to.Bytes(), w.Acct(signer).Acc, url)
+					if sa, ok := auth.(*stakingtypes.StakeAuthorization); ok && sa.MaxTokens != nil {
+						pc.Amt, pc.Methods = sa.MaxTokens.Amount.String(), []string{url}
+						break
+					}
+				}
+			}
+		}
 		raw, _ := json.Marshal(pc)
 		return e.Step{K: "tx", Op: "direct", A: signer, P: raw}
 	default:
